@@ -471,6 +471,15 @@ func c03Run(t *testing.T, c *evid.Collector) {
 				{{"ver", en}, {"put", "docs/k"}, {"put", "docs/k"}, {"ver", su}, {"del", "docs/k"}, {"put", "docs/j"}, {"del", "docs/k"}, {"ver", en}, {"del", "docs/k"}},
 				{{"put", "docs/k"}, {"ver", en}, {"put", "docs/k"}, {"del", "docs/k"}, {"ver", su}, {"del", "docs/k"}, {"del", "docs/k"}, {"put", "docs/other"}},
 				{{"put", "docs/k"}, {"ver", en}, {"ver", su}, {"put", "docs/k"}, {"ver", en}, {"put", "docs/k"}, {"ver", su}, {"del", "docs/k"}, {"del", "docs/k"}, {"ver", en}, {"put", "top"}},
+				// the newest version or delete marker of a key removed by its ID: the one below it is current
+				// again - also when that one was stored before the bucket was versioned
+				{{"put", "docs/a/report"}, {"put", "docs/plain"}, {"ver", en}, {"put", "docs/a/report"}, {"delver", "docs/a/report"}, {"del", "docs/plain"}, {"delver", "docs/plain"}},
+				{{"put", "docs/b/notes"}, {"ver", en}, {"del", "docs/b/notes"}, {"put", "docs/c"}, {"delver", "docs/b/notes"}},
+				{{"ver", en}, {"put", "docs/k"}, {"put", "docs/k"}, {"del", "docs/k"}, {"delver", "docs/k"}, {"delver", "docs/k"}, {"put", "docs/j/x"}, {"delver", "docs/k"}, {"delver", "docs/j/x"}},
+			}
+			type c03Ver struct {
+				id   string
+				body []byte // nil: a delete marker
 			}
 			for hi, h := range hs {
 				st := backends.Must(k, backends.Options{})
@@ -479,20 +488,40 @@ func c03Run(t *testing.T, c *evid.Collector) {
 				}
 				live := map[string][]byte{}
 				var marked []string
+				stack := map[string][]c03Ver{} // only read by histories that never suspend versioning
 				for i, s := range h {
 					switch s.op {
+					case "delver":
+						vs := stack[s.arg]
+						top := vs[len(vs)-1]
+						if top.id == "" {
+							panic("harness: no version ID for the newest entry of " + s.arg)
+						}
+						if r := s3x.Do(st.Handler, &s3x.Req{Method: "DELETE", Path: "/bk0/" + s.arg, Query: s3x.Q("versionId", top.id)}); r.Status != 204 {
+							panic("harness: " + r.String())
+						}
+						vs = vs[:len(vs)-1]
+						stack[s.arg] = vs
+						delete(live, s.arg)
+						if len(vs) > 0 && vs[len(vs)-1].body != nil {
+							live[s.arg] = vs[len(vs)-1].body
+						}
 					case "ver":
 						s3x.Do(st.Handler, &s3x.Req{Method: "PUT", Path: "/bk0", Query: s3x.Q("versioning", s3x.Bare), Body: []byte(`<VersioningConfiguration><Status>` + s.arg + `</Status></VersioningConfiguration>`)})
 					case "put":
 						body := []byte(fmt.Sprintf("%s#%d", s.arg, i))
-						if r := put(st, "bk0", s.arg, body); r.Status != 200 {
+						r := put(st, "bk0", s.arg, body)
+						if r.Status != 200 {
 							panic("harness: " + r.String())
 						}
 						live[s.arg] = body
+						stack[s.arg] = append(stack[s.arg], c03Ver{r.Header.Get("x-amz-version-id"), body})
 					case "del":
-						if r := del(st, "bk0", s.arg); r.Status != 204 {
+						r := del(st, "bk0", s.arg)
+						if r.Status != 204 {
 							panic("harness: " + r.String())
 						}
+						stack[s.arg] = append(stack[s.arg], c03Ver{r.Header.Get("x-amz-version-id"), nil})
 						delete(live, s.arg)
 						marked = append(marked, s.arg)
 					}
